@@ -156,6 +156,16 @@ def routing(case, ctx):
             ctx.v(ID, "routing:public-get", "%s: getattr gave %r (%s), expected the stored value" % (where, g, type(e).__name__))
         if not hasattr(o, name):
             ctx.v(ID, "routing:public-hasattr", "%s: hasattr False after set" % where)
+        # setting it again to a value that compares equal but is another object / type: the attrs entry is the new value
+        twin = {int: float, float: (lambda x: np.float32(x) if float(np.float32(x)) == x else np.float64(x)), list: tuple, tuple: list,
+                bool: int, str: (lambda x: str(x)[:]), dict: (lambda x: dict(x))}.get(type(v))
+        if twin is not None:
+            v2 = twin(v)
+            _, e = step("set-equal-twin", lambda: setattr(o, name, v2))
+            got2 = o.attrs.get(name)
+            if e is not None or type(got2) is not type(v2) or (got2 is not v2 and isinstance(v2, (list, tuple, dict))):
+                ctx.v(ID, "routing:public-reset-equal-value", "%s: after o.%s = %r (%s) following an equal %s, attrs[%r] is %r (%s)" % (
+                    where, name, v2, type(v2).__name__, type(v).__name__, name, got2, type(got2).__name__))
         # writing through attrs is the same thing
         vt2 = "other-" + str(case["pick"])
         o.attrs[name] = vt2
